@@ -10,7 +10,7 @@ import os
 
 from ..engine import VERIF, load_json
 from ..facts import show, site, unwrap, walk
-from ..symx import all_calls, closure_paths, cshow, paths_of, tshow
+from ..symx import simp, all_calls, closure_paths, cshow, paths_of, tshow
 from ..terms import display_norm, is_call, mentions, opt_polarity, same, subterms
 
 ADD = "ipp::attribute::IppAttributes::add"
@@ -250,6 +250,7 @@ def check_base(run, F, T):
         r = paths_of(vb)[0].ret
         run.ob("R-OPWIRE", "default version() = IppVersion::v1_1()", is_call(r, "ipp::model::IppVersion::v1_1"), tshow(r), site(vb), key="R-OPWIRE|version-default")
         r = paths_of(v11)[0].ret
+        r = simp(r)         # constant arithmetic folded: 0x0101, (1 << 8) | 1 and u16::from_be_bytes([1, 1]) are the same number
         run.ob("R-OPWIRE", "IppVersion::v1_1() = 0x0101", r == ("ctor", "ipp::model::IppVersion", [("lit", T["base"]["version_default"])]), tshow(r), site(v11),
                key="R-OPWIRE|v1_1")
     for imp in F.impls:
